@@ -1065,7 +1065,36 @@ def _attr_temp_uses(info, asg, loads):
     else:
         return None
     if not all(id(ld) in allowed for ld in loads):
-        return None
+        # uses spread over the following statements of the same block: fine when nothing between the read and the last use can change the attribute - no call
+        # (other than calling the temporary itself, or effect-free builtins) and no store to an attribute of that name anywhere in the function
+        if info.loops.get(id(asg), True):
+            return None
+        owners = {info.owner.get(id(ld)) for ld in loads}
+        idx = {id(x): j for j, x in enumerate(blk)}
+        tops = []
+        for ld in loads:
+            top = None
+            for x in blk[i + 1:]:
+                if any(y is ld for y in ast.walk(x)):
+                    top = x
+                    break
+            if top is None:
+                return None
+            tops.append(idx[id(top)])
+        last = max(tops)
+        load_ids = {id(ld) for ld in loads}
+        for x in blk[i + 1:last + 1]:
+            for c in ast.walk(x):
+                if isinstance(c, (ast.For, ast.While, ast.FunctionDef, ast.Lambda)):
+                    return None
+                if isinstance(c, ast.Call):
+                    if id(c.func) in load_ids:
+                        continue
+                    if isinstance(c.func, ast.Name) and c.func.id in ('len', 'isinstance', 'type', 'hasattr', 'callable', 'bool', 'int', 'float', 'str', 'tuple', 'list', 'range', 'slice'):
+                        continue
+                    return None
+        if any(isinstance(z, ast.Attribute) and z.attr == asg.value.attr and isinstance(z.ctx, (ast.Store, ast.Del)) for z in ast.walk(info.fn)):
+            return None
     attr = asg.value.attr
     free = {n.id for n in ast.walk(asg.value) if isinstance(n, ast.Name)}
     for x in ast.walk(nxt):
